@@ -248,7 +248,8 @@ def main():
             d = common.compare(c, m, i, P.fields)
             if d and not P.ignore_disagreement(c, m, i):
                 disagreements.append((c, m, i, d))
-        o = P.oracle(c, i)
+        # a TIMEOUT is no observation (only C14, whose subject is termination, judges it)
+        o = P.oracle(c, i) if (i["status"] != "TIMEOUT" or getattr(P, "timeout_is_observation", False)) else None
         if o:
             tag, desc = o
             k = match_known(a.prop, tag, known)
